@@ -705,7 +705,22 @@ where
             "dty" => {} // handled by dty_case, called by the generated code
             _ => panic!("unknown op {}", op),
         }
+        // one flush per operation: after an abort the orchestrator knows which operation was running
+        flush_out(out);
     }
+}
+
+/// Writes the pending observation lines to stdout and clears the buffer.
+pub fn flush_out(out: &mut String) {
+    use std::io::Write;
+    if out.is_empty() {
+        return;
+    }
+    let so = std::io::stdout();
+    let mut l = so.lock();
+    let _ = l.write_all(out.as_bytes());
+    let _ = l.flush();
+    out.clear();
 }
 
 /// Bytes serialized as `S` read as the different type `U` (C04)
